@@ -239,6 +239,29 @@ PROPS["C16"] = dict(
     assumptions=[],
 )
 
+PROPS["C13"] = dict(
+    level_text="Which status record a test consults is part of the reference walk (an entry carries the node the follow mode resolves it to); on top "
+               "of it TLA+ defines -type/-xtype (opposite choices), -perm in its three forms on bit sets, structured symbolic modes evaluated like chmod "
+               "from 0 and written out as text, numeric tests on uid/gid/links/inum, -empty, -samefile (identity incl. hard links, reference resolved by "
+               "the follow mode) and -lname (only where the entry itself is the link). TLC enumerates a catalogue of tests x {-P,-H,-L} x starting point "
+               "direct or through a link on a tree with every creatable file type; -perm operands x a cover of (thorough: all 4096) file modes; "
+               "~3000 symbolic modes against their octal value; laws: -perm exact/all/any, /0 true, xtype dual of type, -lname false for resolved "
+               "links, hard links are the same file. All cases replayed on the real find; random trees with measured attributes validated by TLC.",
+    level_note="Trusted: TLC; the harness's tree construction (mkfifo, unix socket, hard links, chown, chmod) and lstat/readlink read-back. "
+               "Symbolic modes with an explicit who only (the umask-dependent forms are outside the property). -user/-group are exercised in their numeric form.",
+    mc=[dict(module="mc/MC_Stat.tla", cfg=dict(quick="mc/MC_Stat_tree_quick.cfg", thorough="mc/MC_Stat_tree_thorough.cfg"), workers=8),
+        dict(module="mc/MC_Stat.tla", cfg=dict(quick="mc/MC_Stat_perm_quick.cfg", thorough="mc/MC_Stat_perm_thorough.cfg"), workers=8),
+        dict(module="mc/MC_Stat.tla", cfg=dict(quick="mc/MC_Stat_sym_quick.cfg", thorough="mc/MC_Stat_sym_thorough.cfg"), workers=8)],
+    record=dict(quick=500, thorough=12000),
+    selftest=dict(quick=40, thorough=200),
+    trace=dict(module="trace/T_Stat.tla", cfg="trace/T_Stat.cfg"),
+    trace_chunk=400,
+    rule="MC tree: 69 tests x {P,H,L} x 2 starting points on a 14-node tree; MC perm: 3 forms x 17 operands over 30 (all 4096) file modes; MC sym: 1014 "
+         "structured symbolic modes x 3 forms, text and octal spelling both run; trace: random trees with fifos, sockets, hard links, owners, modes x random test.",
+    exhaustive_note="bounded-exhaustive over the catalogue",
+    assumptions=[],
+)
+
 _WALK_NOTE = ("Trusted: TLC; the harness's materialisation of tree values (mkdir/symlink) and the in-process call of find_main with captured "
               "output. Unreadable directories cannot be produced as root in-process and are exercised by C11's fixture only. Link targets are "
               "non-links or dangling (no link-to-link chains).")
